@@ -45,6 +45,8 @@ static std::string instName(const FunctionDecl *FD) {
 struct PrePass : RecursiveASTVisitor<PrePass> {
   llvm::DenseSet<const Stmt *> implicitAwait;           // await_ready/suspend/resume calls of co_await / co_yield
   llvm::DenseMap<const Stmt *, const CXXTryStmt *> tryOf;
+  llvm::DenseSet<const Stmt *> inHandler;                // statements lexically inside a catch handler (an exception is being handled)
+  int handlerDepth = 0;
   std::vector<const CXXTryStmt *> stack;
   bool shouldVisitImplicitCode() const { return true; }
   bool TraverseLambdaExpr(LambdaExpr *) { return true; }   // lambda bodies are functions of their own
@@ -66,6 +68,7 @@ struct PrePass : RecursiveASTVisitor<PrePass> {
   }
   bool dataTraverseStmtPre(Stmt *S) {
     if (!stack.empty()) tryOf[S] = stack.back();
+    if (handlerDepth > 0) inHandler.insert(S);
     return true;
   }
   bool TraverseCXXTryStmt(CXXTryStmt *T) {
@@ -73,7 +76,7 @@ struct PrePass : RecursiveASTVisitor<PrePass> {
     stack.push_back(T);
     TraverseStmt(T->getTryBlock());
     stack.pop_back();
-    for (unsigned i = 0; i < T->getNumHandlers(); ++i) TraverseStmt(T->getHandler(i));
+    for (unsigned i = 0; i < T->getNumHandlers(); ++i) { ++handlerDepth; TraverseStmt(T->getHandler(i)); --handlerDepth; }
     return true;
   }
 };
@@ -316,6 +319,7 @@ struct Ex {
         const Stmt *S = SE->getStmt(); int id = next++; ids[S] = id;
         json::Object E; E["id"] = id; E["loc"] = loc(S->getBeginLoc()); bool keep = false;
         if (auto it = PP.tryOf.find(S); it != PP.tryOf.end()) { auto tb = tryBlock.find(it->second); if (tb != tryBlock.end()) E["try"] = tb->second; }
+        if (PP.inHandler.count(S)) E["in_catch"] = true;
         if (auto *ICE = dyn_cast<ImplicitCastExpr>(S)) {
           if (ICE->getCastKind()==CK_LValueToRValue) { auto *Sub = ICE->getSubExpr()->IgnoreParens(); if (isa<MemberExpr>(Sub) || isa<UnaryOperator>(Sub) || isa<ArraySubscriptExpr>(Sub) || isa<DeclRefExpr>(Sub)) { E["k"]="read"; E["path"]=path(Sub); E["field"]=firstField(Sub); E["lfield"]=lastField(Sub); keep = true; if (isa<DeclRefExpr>(Sub)) { E["k"]="use"; auto *VD = dyn_cast<VarDecl>(cast<DeclRefExpr>(Sub)->getDecl()); if (VD && !VD->hasLocalStorage()) E["k"]="read"; } } }
         } else if (auto *BOp = dyn_cast<BinaryOperator>(S)) {
@@ -367,6 +371,8 @@ struct Ex {
   }
   void record(const CXXRecordDecl *RD, json::Array &cls) {
     json::Object R; R["name"]=qname(RD); R["loc"]=loc(RD->getLocation());
+    // printQualifiedName drops the enclosing function of a local class; its methods carry it: take the class name from one of them
+    if (RD->isLocalClass()) { for (auto *M : RD->methods()) { std::string n = qname(M); auto p = n.rfind("::"); if (p != std::string::npos) { R["name"] = n.substr(0, p); break; } } }
     std::string s; llvm::raw_string_ostream os(s); RD->getNameForDiagnostic(os, PrintingPolicy(LangOptions()), true); R["inst"]=os.str();
     json::Array fields; for (auto *F : RD->fields()) fields.push_back(json::Object{{"name",F->getNameAsString()},{"type",F->getType().getAsString()},{"canon_type",F->getType().getCanonicalType().getAsString()}}); R["fields"]=std::move(fields);
     json::Array bases; for (auto &B : RD->bases()) bases.push_back(B.getType().getAsString()); R["bases"]=std::move(bases);
@@ -402,6 +408,9 @@ public:
   bool VisitCXXRecordDecl(CXXRecordDecl *RD) {
     if (!RD->isThisDeclarationADefinition() || RD->isDependentContext() || RD->isLambda() || !X.inRoot(RD->getLocation())) return true;
     std::string s; llvm::raw_string_ostream os(s); RD->getNameForDiagnostic(os, PrintingPolicy(LangOptions()), true);
+    // local classes of different functions may share their printed name ("Awt"): key them by location and enclosing function instance
+    os << "@" << X.loc(RD->getLocation());
+    if (const FunctionDecl *LF = RD->isLocalClass()) LF->getNameForDiagnostic(os, PrintingPolicy(LangOptions()), true);
     if (seenc.insert(os.str()).second) X.record(RD, Cls);
     return true;
   }
